@@ -257,6 +257,42 @@ def realify_divisions(e):
     return e
 
 
+def has_int_arith(e, ops=("+", "-", "*")):
+    """Some + - * has two INTEGER-typed operands in the emitted text (16-bit wrap-around in BASIC09)."""
+    k = e[0]
+    if k == "bin":
+        if e[1] in ops and int_typed(e[2]) and int_typed(e[3]):
+            return True
+        return has_int_arith(e[2], ops) or has_int_arith(e[3], ops)
+    if k == "un":
+        return has_int_arith(e[2], ops)
+    if k == "par":
+        return has_int_arith(e[1], ops)
+    if k in ("fn", "arr"):
+        return any(has_int_arith(a, ops) for a in e[2])
+    return False
+
+
+def realify_arith(e, ops=("+", "-", "*", "/")):
+    """Same Color BASIC value, but no + - * / has two INTEGER-typed operands (adds '+0' to the right operand)."""
+    k = e[0]
+    if k == "bin":
+        a, b = realify_arith(e[2], ops), realify_arith(e[3], ops)
+        if e[1] in ops and int_typed(a) and int_typed(b):
+            b = ("par", ("bin", "+", ("par", b), num(0)))
+            a = ("par", ("bin", "+", ("par", a), num(0)))
+        return ("bin", e[1], a, b)
+    if k == "un":
+        return ("un", e[1], realify_arith(e[2], ops))
+    if k == "par":
+        return ("par", realify_arith(e[1], ops))
+    if k == "fn":
+        return ("fn", e[1], [realify_arith(a, ops) for a in e[2]])
+    if k == "arr":
+        return ("arr", e[1], [realify_arith(a, ops) for a in e[2]])
+    return e
+
+
 def uses_fn(e, names):
     k = e[0]
     if k == "fn":
